@@ -158,7 +158,7 @@ Section DMatAlg.
   (* ---------- multiplication ---------- *)
   Lemma dmul_assoc A B C : dc A = dr B -> dmul o (dmul o A B) C = dmul o A (dmul o B C).
   Proof.
-    intros H. unfold dmul at 1 3. apply dmk_ext. intros i j Hi Hj. rewrite dr_dmul in *. rewrite dc_dmul in *.
+    intros H. unfold dmul at 1 3. apply (dmk_ext o). intros i j Hi Hj. autorewrite with ddim in *.
     transitivity (mmul o (dc B) (mmul o (dc A) (dget o A) (dget o B)) (dget o C) i j).
     - unfold mmul at 1. apply sum_ext. intros k Hk. now rewrite dget_dmul.
     - rewrite (mmul_assoc o L). unfold mmul at 1. apply sum_ext. intros k Hk.
@@ -167,7 +167,7 @@ Section DMatAlg.
 
   Lemma dmul_id_l A n : dwf A -> dr A = n -> dmul o (did o n) A = A.
   Proof.
-    intros HA <-. apply dmat_ext; dwfs. intros i j Hi Hj. dims.
+    intros HA <-. apply (dmat_ext o); dwfs. intros i j Hi Hj. dims.
     rewrite dget_dmul by dims. dims.
     transitivity (mmul o (dr A) (mid o) (dget o A) i j).
     - unfold mmul. apply sum_ext. intros k Hk. now rewrite dget_did.
@@ -176,7 +176,7 @@ Section DMatAlg.
 
   Lemma dmul_id_r A n : dwf A -> dc A = n -> dmul o A (did o n) = A.
   Proof.
-    intros HA <-. apply dmat_ext; dwfs. intros i j Hi Hj. dims.
+    intros HA <-. apply (dmat_ext o); dwfs. intros i j Hi Hj. dims.
     rewrite dget_dmul by dims.
     transitivity (mmul o (dc A) (dget o A) (mid o) i j).
     - unfold mmul. apply sum_ext. intros k Hk. now rewrite dget_did.
@@ -185,20 +185,22 @@ Section DMatAlg.
 
   Lemma dmul_zero_l m n A : dmul o (dzero o m n) A = dzero o m (dc A).
   Proof.
-    unfold dmul, dzero at 2. dims. apply dmk_ext. intros i j Hi Hj.
+    apply (dmat_ext o); dwfs. intros i j Hi Hj. dims.
+    rewrite dget_dmul by dims. rewrite dget_dzero. unfold mmul.
     apply (sum_zero_ext o L). intros k Hk. rewrite dget_dzero. ring.
   Qed.
 
   Lemma dmul_zero_r A m n : dmul o A (dzero o m n) = dzero o (dr A) n.
   Proof.
-    unfold dmul, dzero at 2. dims. apply dmk_ext. intros i j Hi Hj.
+    apply (dmat_ext o); dwfs. intros i j Hi Hj. dims.
+    rewrite dget_dmul by dims. rewrite dget_dzero. unfold mmul.
     apply (sum_zero_ext o L). intros k Hk. rewrite dget_dzero. ring.
   Qed.
 
   Lemma dmul_add_l A B C : dr A = dr B -> dc A = dc B ->
     dmul o (dadd o A B) C = dadd o (dmul o A C) (dmul o B C).
   Proof.
-    intros H1 H2. apply dmat_ext; dwfs. intros i j Hi Hj. dims.
+    intros H1 H2. apply (dmat_ext o); dwfs. intros i j Hi Hj. dims.
     rewrite dget_dmul, dget_dadd, !dget_dmul by dims. dims.
     rewrite <- H2. unfold mmul. rewrite <- (sum_add o L). apply sum_ext. intros k Hk.
     rewrite dget_dadd by lia. ring.
@@ -207,7 +209,7 @@ Section DMatAlg.
   Lemma dmul_add_r A B C : dc A = dr B -> dr B = dr C -> dc B = dc C ->
     dmul o A (dadd o B C) = dadd o (dmul o A B) (dmul o A C).
   Proof.
-    intros H1 H2 H3. apply dmat_ext; dwfs. intros i j Hi Hj. dims.
+    intros H1 H2 H3. apply (dmat_ext o); dwfs. intros i j Hi Hj. dims.
     rewrite dget_dmul, dget_dadd, !dget_dmul by dims.
     unfold mmul. rewrite <- (sum_add o L). apply sum_ext. intros k Hk.
     rewrite dget_dadd by lia. ring.
@@ -215,7 +217,7 @@ Section DMatAlg.
 
   Lemma dmul_neg_l A B : dmul o (dneg o A) B = dneg o (dmul o A B).
   Proof.
-    apply dmat_ext; dwfs. intros i j Hi Hj. dims.
+    apply (dmat_ext o); dwfs. intros i j Hi Hj. dims.
     rewrite dget_dmul, dget_dneg, dget_dmul by dims. dims.
     unfold mmul. rewrite <- (sum_neg o L). apply sum_ext. intros k Hk.
     rewrite dget_dneg by lia. ring.
@@ -223,7 +225,7 @@ Section DMatAlg.
 
   Lemma dmul_neg_r A B : dc A = dr B -> dmul o A (dneg o B) = dneg o (dmul o A B).
   Proof.
-    intros H. apply dmat_ext; dwfs. intros i j Hi Hj. dims.
+    intros H. apply (dmat_ext o); dwfs. intros i j Hi Hj. dims.
     rewrite dget_dmul, dget_dneg, dget_dmul by dims.
     unfold mmul. rewrite <- (sum_neg o L). apply sum_ext. intros k Hk.
     rewrite dget_dneg by lia. ring.
@@ -232,43 +234,43 @@ Section DMatAlg.
   (* ---------- additive group, entrywise ---------- *)
   Lemma dadd_comm A B : dr A = dr B -> dc A = dc B -> dadd o A B = dadd o B A.
   Proof.
-    intros H1 H2. apply dmat_ext; dwfs. intros i j Hi Hj. dims.
+    intros H1 H2. apply (dmat_ext o); dwfs. intros i j Hi Hj. dims.
     rewrite !dget_dadd by lia. ring.
   Qed.
 
   Lemma dadd_zero_r A : dwf A -> dadd o A (dzero o (dr A) (dc A)) = A.
   Proof.
-    intros H. apply dmat_ext; dwfs. intros i j Hi Hj. dims.
+    intros H. apply (dmat_ext o); dwfs. intros i j Hi Hj. dims.
     rewrite dget_dadd, dget_dzero by lia. ring.
   Qed.
 
   Lemma dadd_zero_l A : dwf A -> dadd o (dzero o (dr A) (dc A)) A = A.
   Proof.
-    intros H. apply dmat_ext; dwfs. intros i j Hi Hj. dims.
+    intros H. apply (dmat_ext o); dwfs. intros i j Hi Hj. dims.
     rewrite dget_dadd, dget_dzero by dims. ring.
   Qed.
 
   Lemma dadd_neg_r A : dadd o A (dneg o A) = dzero o (dr A) (dc A).
   Proof.
-    apply dmat_ext; dwfs. intros i j Hi Hj. dims.
+    apply (dmat_ext o); dwfs. intros i j Hi Hj. dims.
     rewrite dget_dadd, dget_dneg, dget_dzero by lia. ring.
   Qed.
 
   Lemma dadd_neg_l A : dadd o (dneg o A) A = dzero o (dr A) (dc A).
   Proof.
-    apply dmat_ext; dwfs. intros i j Hi Hj. dims.
+    apply (dmat_ext o); dwfs. intros i j Hi Hj. dims.
     rewrite dget_dadd, dget_dneg, dget_dzero by dims. ring.
   Qed.
 
   Lemma dneg_zero m n : dneg o (dzero o m n) = dzero o m n.
   Proof.
-    apply dmat_ext; dwfs. intros i j Hi Hj. dims.
+    apply (dmat_ext o); dwfs. intros i j Hi Hj. dims.
     rewrite dget_dneg, !dget_dzero by dims. ring.
   Qed.
 
   Lemma dsub_eq A B : dr A = dr B -> dc A = dc B -> dsub o A B = dadd o A (dneg o B).
   Proof.
-    intros H1 H2. apply dmat_ext; dwfs. intros i j Hi Hj. dims.
+    intros H1 H2. apply (dmat_ext o); dwfs. intros i j Hi Hj. dims.
     rewrite dget_dsub, dget_dadd, dget_dneg by lia. reflexivity.
   Qed.
 
@@ -277,7 +279,7 @@ Section DMatAlg.
     dr A = dr B -> dc A = dr C -> dc B = dr D -> dc C = dc D ->
     dmul o (dhcat o A B) (dvcat o C D) = dadd o (dmul o A C) (dmul o B D).
   Proof.
-    intros H1 H2 H3 H4. apply dmat_ext; dwfs. intros i j Hi Hj. dims.
+    intros H1 H2 H3 H4. apply (dmat_ext o); dwfs. intros i j Hi Hj. dims.
     rewrite dget_dmul, dget_dadd, !dget_dmul by dims. dims.
     unfold mmul. rewrite (sum_split o L). f_equal.
     - apply sum_ext. intros k Hk. rewrite dget_dhcat, dget_dvcat by lia.
@@ -290,7 +292,7 @@ Section DMatAlg.
   Lemma dmul_vcat_l A B C : dc A = dc B ->
     dmul o (dvcat o A B) C = dvcat o (dmul o A C) (dmul o B C).
   Proof.
-    intros H. apply dmat_ext; dwfs. intros i j Hi Hj. dims.
+    intros H. apply (dmat_ext o); dwfs. intros i j Hi Hj. dims.
     rewrite dget_dmul, dget_dvcat by dims. dims.
     destruct (Nat.ltb_spec i (dr A)) as [Hlt|Hge].
     - rewrite dget_dmul by lia. unfold mmul. apply sum_ext. intros k Hk.
@@ -302,7 +304,7 @@ Section DMatAlg.
   Lemma dmul_hcat_r A B C : dc A = dr B -> dr B = dr C ->
     dmul o A (dhcat o B C) = dhcat o (dmul o A B) (dmul o A C).
   Proof.
-    intros H1 H2. apply dmat_ext; dwfs. intros i j Hi Hj. dims.
+    intros H1 H2. apply (dmat_ext o); dwfs. intros i j Hi Hj. dims.
     rewrite dget_dmul, dget_dhcat by dims. dims.
     destruct (Nat.ltb_spec j (dc B)) as [Hlt|Hge].
     - rewrite dget_dmul by lia. unfold mmul. apply sum_ext. intros k Hk.
@@ -314,7 +316,7 @@ Section DMatAlg.
   Lemma dadd_hcat A B C D : dr A = dr B -> dr A = dr C -> dr A = dr D -> dc A = dc C -> dc B = dc D ->
     dadd o (dhcat o A B) (dhcat o C D) = dhcat o (dadd o A C) (dadd o B D).
   Proof.
-    intros H1 H2 H3 H4 H5. apply dmat_ext; dwfs. intros i j Hi Hj. dims.
+    intros H1 H2 H3 H4 H5. apply (dmat_ext o); dwfs. intros i j Hi Hj. dims.
     rewrite dget_dadd, !dget_dhcat by dims. dims. rewrite <- H4.
     destruct (Nat.ltb_spec j (dc A)).
     - now rewrite dget_dadd by lia.
@@ -324,7 +326,7 @@ Section DMatAlg.
   Lemma dadd_vcat A B C D : dc A = dc B -> dc A = dc C -> dc A = dc D -> dr A = dr C -> dr B = dr D ->
     dadd o (dvcat o A B) (dvcat o C D) = dvcat o (dadd o A C) (dadd o B D).
   Proof.
-    intros H1 H2 H3 H4 H5. apply dmat_ext; dwfs. intros i j Hi Hj. dims.
+    intros H1 H2 H3 H4 H5. apply (dmat_ext o); dwfs. intros i j Hi Hj. dims.
     rewrite dget_dadd, !dget_dvcat by dims. dims. rewrite <- H4.
     destruct (Nat.ltb_spec i (dr A)).
     - now rewrite dget_dadd by lia.
@@ -333,27 +335,27 @@ Section DMatAlg.
 
   Lemma dneg_hcat A B : dr A = dr B -> dneg o (dhcat o A B) = dhcat o (dneg o A) (dneg o B).
   Proof.
-    intros H. apply dmat_ext; dwfs. intros i j Hi Hj. dims.
+    intros H. apply (dmat_ext o); dwfs. intros i j Hi Hj. dims.
     rewrite dget_dneg, !dget_dhcat by dims. dims.
     destruct (Nat.ltb_spec j (dc A)); now rewrite dget_dneg by lia.
   Qed.
 
   Lemma dzero_hcat m a b : dhcat o (dzero o m a) (dzero o m b) = dzero o m (a + b).
   Proof.
-    apply dmat_ext; dwfs. intros i j Hi Hj. dims.
+    apply (dmat_ext o); dwfs. intros i j Hi Hj. dims.
     rewrite dget_dhcat by dims. rewrite !dget_dzero. now destruct (j <? _).
   Qed.
 
   Lemma dzero_vcat a b n : dvcat o (dzero o a n) (dzero o b n) = dzero o (a + b) n.
   Proof.
-    apply dmat_ext; dwfs. intros i j Hi Hj. dims.
+    apply (dmat_ext o); dwfs. intros i j Hi Hj. dims.
     rewrite dget_dvcat by dims. rewrite !dget_dzero. now destruct (i <? _).
   Qed.
 
   Lemma did_blocks r k :
     dvcat o (dhcat o (did o r) (dzero o r k)) (dhcat o (dzero o k r) (did o k)) = did o (r + k).
   Proof.
-    apply dmat_ext; dwfs. intros i j Hi Hj. dims.
+    apply (dmat_ext o); dwfs. intros i j Hi Hj. dims.
     rewrite dget_dvcat by dims. dims. rewrite (dget_did (r + k)) by lia.
     destruct (Nat.ltb_spec i r).
     - rewrite dget_dhcat by dims. dims. destruct (Nat.ltb_spec j r).
@@ -371,11 +373,11 @@ Section DMatAlg.
     dvcat o A B = dvcat o C D -> A = C /\ B = D.
   Proof.
     intros WA WB WC WD H1 H2 H3 H4 H5 E. split.
-    - apply dmat_ext; try assumption. intros i j Hi Hj.
+    - apply (dmat_ext o); try assumption. intros i j Hi Hj.
       assert (X : dget o (dvcat o A B) i j = dget o (dvcat o C D) i j) by now rewrite E.
       rewrite !dget_dvcat in X by lia.
       destruct (Nat.ltb_spec i (dr A)); [|lia]. destruct (Nat.ltb_spec i (dr C)); [|lia]. exact X.
-    - apply dmat_ext; try assumption; try lia. intros i j Hi Hj.
+    - apply (dmat_ext o); try assumption; try lia. intros i j Hi Hj.
       assert (X : dget o (dvcat o A B) (dr A + i) j = dget o (dvcat o C D) (dr A + i) j) by now rewrite E.
       rewrite !dget_dvcat in X by lia.
       destruct (Nat.ltb_spec (dr A + i) (dr A)); [lia|]. destruct (Nat.ltb_spec (dr A + i) (dr C)); [lia|].
@@ -388,11 +390,11 @@ Section DMatAlg.
     dhcat o A B = dhcat o C D -> A = C /\ B = D.
   Proof.
     intros WA WB WC WD H1 H2 H3 H4 H5 E. split.
-    - apply dmat_ext; try assumption. intros i j Hi Hj.
+    - apply (dmat_ext o); try assumption. intros i j Hi Hj.
       assert (X : dget o (dhcat o A B) i j = dget o (dhcat o C D) i j) by now rewrite E.
       rewrite !dget_dhcat in X by lia.
       destruct (Nat.ltb_spec j (dc A)); [|lia]. destruct (Nat.ltb_spec j (dc C)); [|lia]. exact X.
-    - apply dmat_ext; try assumption; try lia. intros i j Hi Hj.
+    - apply (dmat_ext o); try assumption; try lia. intros i j Hi Hj.
       assert (X : dget o (dhcat o A B) i (dc A + j) = dget o (dhcat o C D) i (dc A + j)) by now rewrite E.
       rewrite !dget_dhcat in X by lia.
       destruct (Nat.ltb_spec (dc A + j) (dc A)); [lia|]. destruct (Nat.ltb_spec (dc A + j) (dc C)); [lia|].
@@ -404,7 +406,7 @@ Section DMatAlg.
     A = dvcat o (dhcat o (dblock o A 0 0 r r) (dblock o A 0 r r (dc A - r)))
                 (dhcat o (dblock o A r 0 (dr A - r) r) (dblock o A r r (dr A - r) (dc A - r))).
   Proof.
-    intros HA Hr Hc. apply dmat_ext; dwfs; dims. intros i j Hi Hj.
+    intros HA Hr Hc. apply (dmat_ext o); dwfs; dims. intros i j Hi Hj.
     rewrite dget_dvcat by dims. dims.
     destruct (Nat.ltb_spec i r).
     - rewrite dget_dhcat by dims. dims. destruct (Nat.ltb_spec j r).
@@ -418,7 +420,7 @@ Section DMatAlg.
   Lemma dvcat_decomp A r : dwf A -> r <= dr A ->
     A = dvcat o (dblock o A 0 0 r (dc A)) (dblock o A r 0 (dr A - r) (dc A)).
   Proof.
-    intros HA Hr. apply dmat_ext; dwfs; dims. intros i j Hi Hj.
+    intros HA Hr. apply (dmat_ext o); dwfs; dims. intros i j Hi Hj.
     rewrite dget_dvcat by dims. dims.
     destruct (Nat.ltb_spec i r).
     - now rewrite dget_dblock.
@@ -428,7 +430,7 @@ Section DMatAlg.
   Lemma dhcat_decomp A r : dwf A -> r <= dc A ->
     A = dhcat o (dblock o A 0 0 (dr A) r) (dblock o A 0 r (dr A) (dc A - r)).
   Proof.
-    intros HA Hr. apply dmat_ext; dwfs; dims. intros i j Hi Hj.
+    intros HA Hr. apply (dmat_ext o); dwfs; dims. intros i j Hi Hj.
     rewrite dget_dhcat by dims. dims.
     destruct (Nat.ltb_spec j r).
     - now rewrite dget_dblock.
@@ -438,20 +440,20 @@ Section DMatAlg.
   (* ---------- transpose ---------- *)
   Lemma dtrans_dmul A B : dc A = dr B -> dtrans o (dmul o A B) = dmul o (dtrans o B) (dtrans o A).
   Proof.
-    intros H. apply dmat_ext; dwfs. intros i j Hi Hj. dims.
+    intros H. apply (dmat_ext o); dwfs. intros i j Hi Hj. dims.
     rewrite dget_dtrans, !dget_dmul by dims. dims. rewrite <- H.
     unfold mmul. apply sum_ext. intros k Hk. rewrite !dget_dtrans by lia. ring.
   Qed.
 
   Lemma dtrans_did n : dtrans o (did o n) = did o n.
   Proof.
-    apply dmat_ext; dwfs. intros i j Hi Hj. dims.
+    apply (dmat_ext o); dwfs. intros i j Hi Hj. dims.
     rewrite dget_dtrans, !dget_did by dims. unfold mid. rewrite Nat.eqb_sym. reflexivity.
   Qed.
 
   Lemma dtrans_invol A : dwf A -> dtrans o (dtrans o A) = A.
   Proof.
-    intros H. apply dmat_ext; dwfs. intros i j Hi Hj. dims.
+    intros H. apply (dmat_ext o); dwfs. intros i j Hi Hj. dims.
     rewrite !dget_dtrans by dims. reflexivity.
   Qed.
 
@@ -459,7 +461,7 @@ Section DMatAlg.
   Lemma deqb_eq A B : dwf A -> dwf B -> deqb o A B = true <-> A = B.
   Proof.
     intros HA HB. unfold deqb. rewrite !andb_true_iff, !Nat.eqb_eq, (leqb_meq o L). split.
-    - intros [[H1 H2] H3]. apply dmat_ext; try assumption. intros i j Hi Hj. now apply H3.
-    - intros ->. repeat split. intros i j _ _. reflexivity.
+    - intros [[H1 H2] H3]. apply (dmat_ext o); assumption.
+    - intros ->. repeat split.
   Qed.
 End DMatAlg.
